@@ -28,12 +28,24 @@ AFILE = "d.txt"        # the top-level text file (edited, moved into / out of th
 XFILE = "b.txt2"       # the file created next to b.txt
 NFOLDER = "d2"         # the folder created by the nested set
 
-TREE0 = {
-    AFILE: "A\n",
+# Line ends: d.txt is a CRLF file, d/b.txt a CR file, n.py a CRLF python module, m.py an LF one.  rope reads text
+# with universal newlines and writes it back with the convention of the File object (File.newlines): undo and redo
+# must restore the BYTES.  TREE_LF is the same tree with LF everywhere.
+TREE_LF = {
+    AFILE: "A\nB\n",
     "d": None,
-    "d/b.txt": "B\n",
+    "d/b.txt": "B\nC\n",
     "m.py": "def f():\n    return 1\n",
     "n.py": "import m\nprint(m.f())\n",
+    "z.pyc": "Z",
+}
+
+TREE0 = {
+    AFILE: "A\r\nB\r\n",
+    "d": None,
+    "d/b.txt": "B\rC\r",
+    "m.py": "def f():\n    return 1\n",
+    "n.py": "import m\r\nprint(m.f())\r\n",
     "z.pyc": "Z",                      # matches the default ignored_resources pattern *.pyc
 }
 
@@ -56,6 +68,74 @@ def preview(change):
         change.get_description()
     except Exception:
         pass
+
+
+def look_at_files(change):
+    """a client showing the current text of the files a listed change edits: reads them through the very File
+    objects the change holds"""
+    from rope.base import change as ch
+    for leaf in leaf_changes(change):
+        if isinstance(leaf, ch.ChangeContents):
+            try:
+                if leaf.resource.exists() and not leaf.resource.is_folder():
+                    leaf.resource.read()
+            except Exception:
+                pass
+
+
+def conv(data):
+    """(text, newline convention) of file bytes as a File object that has not seen the file before reads them:
+    universal newlines; CR wins over CRLF wins over LF (rope.base.fscommands.file_data_to_unicode)"""
+    try:
+        text = data.decode("utf-8")
+    except UnicodeDecodeError:
+        text = data.decode("latin1")
+    nl = "\n"
+    if "\r\n" in text:
+        text = text.replace("\r\n", "\n")
+        nl = "\r\n"
+    if "\r" in text:
+        text = text.replace("\r", "\n")
+        nl = "\r"
+    return text, nl
+
+
+def enc(text, nl):
+    if text is None:
+        return None
+    return text.replace("\n", nl).encode("utf-8") if nl != "\n" else text.encode("utf-8")
+
+
+def abstract(c, nlmap=None):
+    """real Change object -> spec; a ChangeContents carries as 5th element the newline convention its File object
+    writes with (the convention of the file when the change was first performed; LF for a File object that has
+    never read the file, e.g. a change reloaded from a saved history)"""
+    from rope.base import change as ch
+    if isinstance(c, ch.ChangeSet):
+        return ["CS", c.description, [abstract(x, nlmap) for x in c.changes]]
+    sp = L10.abstract_change(c)
+    if sp[0] == "CC":
+        sp = sp + [getattr(c, "_verif_nl", "\n")]
+    return sp
+
+
+def note_newlines(built, snap, nlmap):
+    """before a do: the convention each not yet performed ChangeContents leaf will write with"""
+    from rope.base import change as ch
+    cur = {}
+    for leaf in leaf_changes(built):
+        if isinstance(leaf, ch.ChangeContents):
+            path = leaf.resource.path
+            if leaf.old_contents is None and not hasattr(leaf, "_verif_nl"):
+                data = cur.get(path, snap.get(path))
+                nl = conv(data)[1] if isinstance(data, bytes) else "\n"
+                prev = getattr(leaf.resource, "_verif_nl", None)
+                text = conv(data)[0] if isinstance(data, bytes) else ""
+                if prev is not None and "\n" not in text:
+                    nl = prev                     # the same File object has seen the file before: it keeps its convention
+                leaf.resource._verif_nl = nl
+                leaf._verif_nl = nl
+            cur[path] = enc(leaf.new_contents, getattr(leaf, "_verif_nl", "\n"))
 
 
 def mkset(desc, children):
@@ -93,9 +173,10 @@ def resolve(letter, snap, tag, project):
         return mkset(desc, children)
 
     if letter == "EA":
-        return CS(ch.ChangeContents(project.get_file(afile), "a%d\n" % tag))
+        # every other edit leaves a text without any line break
+        return CS(ch.ChangeContents(project.get_file(afile), ("a%d" if tag % 2 else "a%d\nq\n") % tag))
     if letter == "EB":
-        return CS(ch.ChangeContents(project.get_file(folder + "/b.txt"), "b%d\n" % tag))
+        return CS(ch.ChangeContents(project.get_file(folder + "/b.txt"), ("b%d\nr\n" if tag % 2 else "b%d") % tag))
     if letter == "CF":
         if tag % 2:
             return CS(ch.CreateFile(project.get_folder(folder), XFILE))
@@ -149,6 +230,25 @@ def resolve(letter, snap, tag, project):
 
 
 # ------------------------------------------------------------------------------------ recording
+class NewlineAwareFS(L10.FaultyFS):
+    """C10's observed file-system commands; the reversibility verdict of a write compares TEXTS (the file read with
+    universal newlines against the recorded old / new contents), as rope records texts, not bytes"""
+
+    def write(self, path, data):
+        def reversible(c, m):
+            if not os.path.isfile(path):
+                return False
+            with open(path, "rb") as f:
+                cur = f.read()
+            expect = c.old_contents if m == "do" else c.new_contents
+            if expect is None:
+                return False
+            if isinstance(expect, bytes):
+                return cur == expect
+            return conv(cur)[0] == expect
+        return self._counted("write", reversible, lambda: self.real.write(path, data))
+
+
 def mkdtemp():
     """scratch project directory: on the memory file system when there is one (the disk-backed /tmp of the
     sandbox costs milliseconds per unlink), never inside /repo or /verif"""
@@ -172,7 +272,7 @@ def exc_codes(exc):
     return L10.exc_codes(exc)
 
 
-def run_session(tree, limit, script, keep_objects=False):
+def run_session(tree, limit, script, keep_objects=False, reread_all=False):
     """Runs the script; returns a Session with one Step per op."""
     from rope.base.project import Project
     from rope.base import taskhandle
@@ -184,9 +284,12 @@ def run_session(tree, limit, script, keep_objects=False):
     ses.ignored = set()
     ses.paths = set()
     ses.patterns = []
+    ses.reread_all = reread_all
+    nlmap = {}
+    ses.nlmap = nlmap
     try:
         L10.populate(root, tree)
-        fsc = L10.FaultyFS()
+        fsc = NewlineAwareFS()
         # sessions with a "reopen" step keep the project's data files (the saved history) in .ropeproject
         persist = any(op and op[0] == "reopen" for op in script)
 
@@ -211,8 +314,8 @@ def run_session(tree, limit, script, keep_objects=False):
             st.pre_tree = snap
             st.pre_undo_objs = list(hist.undo_list)
             st.pre_redo_objs = list(hist.redo_list)
-            st.pre_undo = [L10.abstract_change(c) for c in st.pre_undo_objs]
-            st.pre_redo = [L10.abstract_change(c) for c in st.pre_redo_objs]
+            st.pre_undo = [abstract(c, nlmap) for c in st.pre_undo_objs]
+            st.pre_redo = [abstract(c, nlmap) for c in st.pre_redo_objs]
             st.kind = op[0]
             st.built = None
             st.change = None
@@ -234,6 +337,8 @@ def run_session(tree, limit, script, keep_objects=False):
             handle.add_observer(stopper)
             for c in list(hist.undo_list) + list(hist.redo_list):
                 preview(c)
+                if reread_all:
+                    look_at_files(c)
             if op[0] == "do":
                 tag += 1
                 try:
@@ -243,7 +348,8 @@ def run_session(tree, limit, script, keep_objects=False):
                     else:
                         built = L10.build_change(project, op[1])
                     st.built = built
-                    st.change = L10.abstract_change(built)
+                    note_newlines(built, snap, nlmap)
+                    st.change = abstract(built, nlmap)
                 except Exception as e:          # rope refuses to construct it: not an operation
                     st.build_error = repr(e)[:200]
                 fsc.reset(armed=None, op="do")
@@ -255,6 +361,8 @@ def run_session(tree, limit, script, keep_objects=False):
                             ses.ignored.add(res.path)
                     try:
                         project.do(built, task_handle=handle)
+                        # the client shows the edited files: reads them through the File objects of the change
+                        look_at_files(built)
                     except Exception as e:
                         exc = e
             elif op[0] == "undo":
@@ -286,9 +394,17 @@ def run_session(tree, limit, script, keep_objects=False):
             elif op[0] == "reopen":
                 # close the project (History.write saves the lists) and open it again (History._load_history)
                 cur = hist.max_undos
+                old_u, old_r = list(hist.undo_list), list(hist.redo_list)
                 project.close()
                 project = open_project(cur)
                 hist = project.history
+                # the byte-level model keeps for a reloaded change the convention it had (what an exact undo needs)
+                new_u, new_r = list(hist.undo_list), list(hist.redo_list)
+                pairs = list(zip(old_u[len(old_u) - len(new_u):], new_u)) + list(zip(old_r, new_r))
+                for a, b in pairs:
+                    for la, lb in zip(leaf_changes(a), leaf_changes(b)):
+                        if hasattr(la, "_verif_nl"):
+                            lb._verif_nl = la._verif_nl
             elif op[0] == "limit":
                 # the preference is lowered / raised between two operations; History.max_undos reads it each time
                 st.sel = int(op[1])
@@ -312,8 +428,8 @@ def run_session(tree, limit, script, keep_objects=False):
             st.post_tree = snap
             st.post_undo_objs = list(hist.undo_list)
             st.post_redo_objs = list(hist.redo_list)
-            st.post_undo = [L10.abstract_change(c) for c in st.post_undo_objs]
-            st.post_redo = [L10.abstract_change(c) for c in st.post_redo_objs]
+            st.post_undo = [abstract(c, nlmap) for c in st.post_undo_objs]
+            st.post_redo = [abstract(c, nlmap) for c in st.post_redo_objs]
             st.current_change_cleared = hist.current_change is None
             st.returned_objs = list(returned) if returned is not None else None
             # positions, in the list before the call, of the returned changes (by identity)
@@ -401,9 +517,17 @@ def replay_tree(tree, specs):
         shutil.rmtree(root, ignore_errors=True)
 
 
+def strip_nl(spec):
+    if spec[0] == "CC":
+        return list(spec[:4])
+    if spec[0] == "CS":
+        return ["CS", spec[1], [strip_nl(c) for c in spec[2]]]
+    return list(spec)
+
+
 def strip_old(spec):
     if spec[0] == "CC":
-        return ["CC", spec[1], spec[2], None]
+        return ["CC", spec[1], spec[2], None] + list(spec[4:5])
     if spec[0] == "CS":
         return ["CS", spec[1], [strip_old(c) for c in spec[2]]]
     return list(spec)
@@ -508,8 +632,9 @@ class Printer:
     def g_change_raw(self, spec):
         k = spec[0]
         if k == "CC":
-            return "(CC %s %s %s)" % (g_path(spec[1]), self.g_bytes(spec[2]),
-                                      g_opt(None if spec[3] is None else self.g_bytes(spec[3])))
+            nl = spec[4] if len(spec) > 4 else "\n"
+            return "(CC %s %s %s)" % (g_path(spec[1]), self.g_bytes(enc(spec[2], nl)),
+                                      g_opt(None if spec[3] is None else self.g_bytes(enc(spec[3], nl))))
         if k == "MV":
             return "(MV %s %s %s)" % (g_path(spec[1]), g_path(spec[2]), g_bool(spec[3]))
         if k == "CR":
